@@ -73,9 +73,12 @@ def components_ok(pairs, limit, total=40000):
 
 def real(case):
     """everything the real code says about one structure"""
-    seq, pairs, want_all, want_opt, levels = case
+    seq, pairs, want_all, want_opt, levels = case[:5]
     from rnapolis.common import BpSeq
     b = g1.mk_bpseq(seq, pairs)
+    # derivations / queries made on the object BEFORE its notations are asked for (they must not change what it encodes)
+    for name in (case[5] if len(case) > 5 else ()):
+        call(lambda: getattr(b, name)() if name.startswith("without_") else getattr(b, name))
     out = {}
     out["text"] = call(str, b)
     out["regions"] = call(lambda: ";".join("%d:%d:%d" % r for r in b._BpSeq__regions))
@@ -184,12 +187,15 @@ def run(ctx):
             levels = [ctx.rng.randrange(0, 30) for _ in range(nst)]
         else:
             levels = [ctx.rng.randrange(0, 33) for _ in range(nst)]
-        cases.append((seq, pairs, components_ok(pairs, limit), want_opt, levels))
+        pre = ()
+        if tag in ("planted", "dense", "tight", "hand") and ctx.rng.random() < 0.2:
+            pre = tuple(ctx.rng.sample(["without_isolated", "without_pseudoknots", "elements", "pairs"], ctx.rng.randint(1, 2)))
+        cases.append((seq, pairs, components_ok(pairs, limit), want_opt, levels, pre))
     outs = parallel_map(real, cases)
     D = ctx.driver
     reqs = []
     idx = []
-    for ci, ((tag, (seq, pairs)), (_, _, want_all, want_opt, levels), o) in enumerate(zip(inputs, cases, outs)):
+    for ci, ((tag, (seq, pairs)), (_, _, want_all, want_opt, levels, _pre), o) in enumerate(zip(inputs, cases, outs)):
         ps = g1.pstr(pairs)
         reqs.append(["ss.mkdb", seq, ps, g1.pstr(levels)]); idx.append((ci, "mk"))
         reqs.append(["ss.regions", seq, ps]); idx.append((ci, "regions"))
@@ -209,7 +215,7 @@ def run(ctx):
     for (ci, what), r in zip(idx, resp):
         tag, (seq, pairs) = inputs[ci]
         o = outs[ci]
-        inp = {"seq": seq, "pairs": pairs, "family": tag}
+        inp = {"seq": seq, "pairs": pairs, "family": tag, "calls_before": list(cases[ci][5])}
         if what == "regions":
             if o["regions"] != ("ok", r):
                 res.fail("corr", "C01:regions", inp, "impl=%r model=%r" % (o["regions"], r))
@@ -243,7 +249,7 @@ def run(ctx):
         res.case((n, tuple(pairs)), nontrivial=npairs > 0)
         res.count("family:" + tag.split(":")[0].rstrip("0123456789"))
         res.count("n<=8" if n <= 8 else "n<=32" if n <= 32 else "n<=128" if n <= 128 else "n>128")
-        inp = {"seq": seq, "pairs": pairs, "family": tag}
+        inp = {"seq": seq, "pairs": pairs, "family": tag, "calls_before": list(cases[ci][5])}
         exp_text = "\n".join("%d %s %d" % (i + 1, c, p) for i, (c, p) in enumerate(zip(seq, pairs)))
         if o["text"] != ("ok", exp_text):
             res.fail("corr", "C01:text", inp, "str(bpseq)=%r" % (o["text"],))
@@ -274,7 +280,7 @@ def run(ctx):
     # ---- every dot-bracket the library produces includes those produced when the solver misbehaves
     from corr.c13 import FAULTS, real as real_fault
     fcases = []
-    knotted = [(tag, c) for (tag, c), (_, _, _, want_opt, _) in zip(inputs, cases)
+    knotted = [(tag, c) for (tag, c), (_, _, _, want_opt, _, _p) in zip(inputs, cases)
                if want_opt and any(x > 1 for x in (component_sizes(c[1]) or []))]
     rng = ctx.rng
     for tag, (seq, pairs) in rng.sample(knotted, min(len(knotted), ctx.pick(150, 2000))):
@@ -363,7 +369,7 @@ def replay(ctx, data):
         print("impl:", o)
         print("model decode:", ctx.driver.ask1("ss.decode", inp["structure"]))
     else:
-        o = real((inp["seq"], inp["pairs"], components_ok(inp["pairs"], 8), True, None))
+        o = real((inp["seq"], inp["pairs"], components_ok(inp["pairs"], 8), True, None, tuple(inp.get("calls_before", ()))))
         print("impl:", o)
         ps = g1.pstr(inp["pairs"])
         print("model fcfs:", ctx.driver.ask1("ss.fcfs", inp["seq"], ps))
